@@ -312,7 +312,16 @@ def run_session(case):
     return res
 
 
-KINDS = {"session": run_session, "kernel": run_kernel, "hole": run_hole, "pipe": run_pipe, "pipe1": run_pipe1}
+def run_duo7(case):
+    """Two samplers with different options alive in one process, every interleaving of their iterations and queries: record coherence at every
+    step boundary of both, and everything either hands out after every operation consists of whole records of its own history."""
+    from mc import session
+
+    return session.run_duo(case, lambda: [coherent_monitor("pipe")], oracle=session.accessor_oracle,
+                           key_pred=lambda k: not (k.startswith("session:posterior:weights") or k.startswith("session:evidence") or k.startswith("session:trim")))
+
+
+KINDS = {"duo": run_duo7, "session": run_session, "kernel": run_kernel, "hole": run_hole, "pipe": run_pipe, "pipe1": run_pipe1}
 
 FACTORS = [
     ("sample", ["tpcn", "rwm"]),
@@ -373,6 +382,12 @@ def plan(ctx):
         for sh in range(4):
             sess.append({"kind": "session", "cfg": cfg, "base": ctx.seed, "depth": 4 if th else 3, "ops": _s.FAIL_OPS, "shard": [sh, 4]})
     ctx.explore("session-sequences", sess)
+    dbase = dict(n_particles=8, d=2, ess_ratio=1.0, n_total=10 ** 6, eval="blobs", clustering=True, resample="syst")
+    duo = [{"kind": "duo", "cfg": dict(dbase, **a), "cfg_b": b, "base": ctx.seed, "depth": 4 if th else 3, "shard": [sh, 2]}
+           for a, b in (({}, {"eval": "scalar", "d": 1, "clustering": False}), ({"boundary": "per0ref1"}, {"boundary": "none", "prior": "nonlinear"}), ({"sample": "rwm", "blob_form": "vector"}, {"sample": "tpcn", "blob_dtype": "int64"}),
+                        ({"eval": "vec"}, {"eval": "vec", "target": "bimodal", "n_particles": 12}))
+           for sh in range(2)]
+    ctx.explore("two-samplers-interleaved", duo)
     ctx.bounds.update({"session": {"alphabet": ["S (iterate)", "V0/V1 (save_state to slot)", "L0/L1 (load_state from slot)"], "depth": "all sequences to depth 7 (thorough) / 5 (quick) + 57 longer save/branch/roll-back patterns (length <= 9)", "warm_iterations": 3}})
     rows = lattice.covering_array(FACTORS, strength=3 if th else 2, seed=ctx.seed)
     cov, tot = lattice.count_covered(rows, FACTORS, 3 if th else 2)
